@@ -275,17 +275,26 @@ Section Snap.
   Qed.
 
   (* ---- apply --------------------------------------------------------------- *)
-  Lemma s_kubectl_apply s l : sstep s (fst (kubectl_apply sc s l)).
+  Lemma s_ssa_patch l s n : sstep s (fst (ssa_patch sc s l n)).
   Proof.
-    unfold kubectl_apply. cbv zeta. destruct (ssa_mode sc).
-    - destruct (faulted sc _); cbn [fst]; [ss|].
-      destruct (find_obj _ _); destruct (match o_dry (sc_opts sc) with DServer => true | _ => false end); cbn [fst]; ss.
-    - pose proof (s_get_obj s (l_id l)) as G. destruct (get_obj sc s (l_id l)) as [s1 g]. cbn [fst] in G.
-      destruct g; cbn [fst]; try exact G.
-      + destruct (is_dry _); cbn [fst]; [exact G|]. destruct (faulted sc _); cbn [fst]; ss.
-      + destruct (negb (patch_needed c l)); cbn [fst]; [exact G|].
-        destruct (is_dry _); cbn [fst]; [exact G|]. destruct (faulted sc _); cbn [fst]; ss.
+    unfold ssa_patch. cbv zeta.
+    destruct (faulted sc (FStream _ _)); cbn [fst]; [ss|].
+    destruct (faulted sc (FApply _)); cbn [fst]; [ss|].
+    destruct (find_obj _ _); destruct (match o_dry (sc_opts sc) with DServer => true | _ => false end); cbn [fst]; ss.
   Qed.
+
+  Lemma s_csa_apply l s : sstep s (fst (csa_apply sc s l)).
+  Proof.
+    unfold csa_apply. cbv zeta.
+    pose proof (s_get_obj s (l_id l)) as G. destruct (get_obj sc s (l_id l)) as [s1 g]. cbn [fst] in G.
+    destruct g; cbn [fst]; try exact G.
+    + destruct (is_dry _); cbn [fst]; [exact G|]. destruct (faulted sc _); cbn [fst]; ss.
+    + destruct (negb (patch_needed c l)); cbn [fst]; [exact G|].
+      destruct (is_dry _); cbn [fst]; [exact G|]. destruct (faulted sc _); cbn [fst]; ss.
+  Qed.
+
+  Lemma s_kubectl_apply s l : sstep s (fst (kubectl_apply sc s l)).
+  Proof. exact (kubectl_apply_step sc l sstep s_trans (s_ssa_patch l) (s_csa_apply l) s). Qed.
 
   Lemma s_policy_apply_filter s i : sstep s (fst (policy_apply_filter sc s i)).
   Proof.
